@@ -251,6 +251,31 @@ func evalPureWith(fn *ssa.Function, args []interface{}, depth int, oracle evalOr
 					}
 				}
 			case *ssa.Call:
+				// the builtins min and max on two values
+				if bi, isB := x.Call.Value.(*ssa.Builtin); isB && (bi.Name() == "min" || bi.Name() == "max") && len(x.Call.Args) == 2 {
+					l, ok1 := get(x.Call.Args[0])
+					r, ok2 := get(x.Call.Args[1])
+					if ok1 && ok2 {
+						lessEq, known := false, false
+						switch lv := l.(type) {
+						case int64:
+							if rv, ok := r.(int64); ok {
+								lessEq, known = lv <= rv, true
+							}
+						case evSym:
+							if rv, ok := r.(evSym); ok && oracle != nil {
+								lessEq, known = oracle(token.LEQ, lv, rv)
+							}
+						}
+						if known {
+							if (bi.Name() == "min") == lessEq {
+								st.vals[x] = l
+							} else {
+								st.vals[x] = r
+							}
+						}
+					}
+				}
 				if callee := x.Call.StaticCallee(); callee != nil && !core.IsModPath(core.FuncPkgPath(callee)) && evalExtern != nil {
 					var cargs []interface{}
 					okArgs := true
